@@ -43,16 +43,16 @@ def literal_keys_read(f, dictname="results"):
 def run(ctx):
     from ..shared import commit_idempotent_rule as _commit_idempotent_rule
 
-    _commit_idempotent_rule(ctx, "R15.12")
+    ctx.attempt(_commit_idempotent_rule, ctx, "R15.12")
     from ..shared import state_alias_rule as _state_alias_rule
 
-    _state_alias_rule(ctx, "R15.10", scope=lambda f, _s=("EasyFEA.Simulations", "EasyFEA.FEM._mesh"): f.module.name.startswith(_s), min_instances=100)
+    ctx.attempt(_state_alias_rule, ctx, "R15.10", scope=lambda f, _s=("EasyFEA.Simulations", "EasyFEA.FEM._mesh"): f.module.name.startswith(_s), min_instances=100)
     # 'reading a stored iteration never alters the simulation' and restores exactly iteration i: no memo of what was read survives a later save
     from ..shared import memo_rule as _memo_rule, cached_param_rule as _cached_param_rule
 
     _scope = ("EasyFEA.Simulations",)
-    _memo_rule(ctx, "R15.8", scope=lambda f: f.module.name.startswith(_scope), min_instances=0)
-    _cached_param_rule(ctx, "R15.9", min_instances=20)
+    ctx.attempt(_memo_rule, ctx, "R15.8", scope=lambda f: f.module.name.startswith(_scope), min_instances=0)
+    ctx.attempt(_cached_param_rule, ctx, "R15.9", min_instances=20)
     repo = ctx.repo
     ctx.level = "other"
     ctx.explanation = (
@@ -237,8 +237,8 @@ def run(ctx):
     else:
         r4.fail(fsb.qualname, "append", fsb.file, fsb.lineno, "_Simu.Save_Iter", f"unexpected history append(s): {[norm_text(a) for a in appends]}")
 
-    mesh_roundtrip_rule(ctx)
-    history_paths_rule(ctx)
+    ctx.attempt(mesh_roundtrip_rule, ctx)
+    ctx.attempt(history_paths_rule, ctx)
 
     # R15.6
     r6 = ctx.rule("R15.6", "every Result override restores the requested iteration before computing", min_instances=7)
